@@ -84,8 +84,12 @@ SEEDED_CHECK = {
     "C04-B": "C04", "C11-A": "C11", "C15-B": "C15", "C08-B": "C13", "C03-A": "C03", "C14-A": "C07", "C08-B2": "C13", "C08-B3": "C13", "C16-A3": "C12", "C14-A": "C14",
     "C07-A4": "C11", "C08-A4": "C13", "C11-A4": "C10",
     "C08-B6": "C13", "C13-A4": "C14", "C12-A7": "C04",
+    "C03-B8": "C04", "C04-B8": "C12", "C08-A8": "C13",
     "C02-A5": "C06", "C07-B5": "C14", "C08-A5": "C13", "C14-A5": "C18", "C14-B5": "C16", "C19-A5": "C07", "C19-B5": "C16",
 }
+
+
+SEEDED_BUDGET = {"C18-B8": 120, "C10-B8": 120}
 
 
 def sh(cmd, cwd=None):
@@ -116,7 +120,10 @@ def main():
         sh("git -C /repo worktree remove --force %s" % WT)
     for d in sorted(os.listdir(os.path.join(V, "seeded"))):
         meta = json.load(open(os.path.join(V, "seeded", d, "meta.json")))
-        cat.append({"id": "seeded/" + d, "patch": "seeded/%s/patch.diff" % d, "check": SEEDED_CHECK.get(d, meta["property"]), "origin": "sub-agent, written against " + meta["property"]})
+        e = {"id": "seeded/" + d, "patch": "seeded/%s/patch.diff" % d, "check": SEEDED_CHECK.get(d, meta["property"]), "origin": "sub-agent, written against " + meta["property"]}
+        if d in SEEDED_BUDGET:
+            e["budget"] = SEEDED_BUDGET[d]  # needs more than the quick tier's default budget (see DESIGN, wave matrix)
+        cat.append(e)
     json.dump(cat, open(os.path.join(V, "mutants", "catalog.json"), "w"), indent=1)
     print("catalogue: %d entries" % len(cat))
 
